@@ -61,23 +61,41 @@ type task struct {
 
 type panicStruct struct{ Code int }
 
+// errList is an error whose dynamic type is not comparable (a slice)
+type errList []string
+
+func (e errList) Error() string { return strings.Join(e, ";") }
+
 func tagOf(v any) string {
 	switch x := v.(type) {
 	case nil:
 		return "nil"
 	case string:
 		return "str:" + x
+	case errList:
+		return "errlist:" + x.Error()
 	case error:
 		return "err:" + x.Error()
 	case int:
 		return fmt.Sprintf("int:%d", x)
 	case panicStruct:
 		return fmt.Sprintf("struct:%d", x.Code)
+	case []int:
+		return fmt.Sprintf("slice:%v", x)
+	case map[string]int:
+		return fmt.Sprintf("map:%d", len(x))
 	}
 	return fmt.Sprintf("other:%T", v)
 }
 
 func (t *task) Start() {
+	if t.sc.quiet.Load() {
+		t.starts.Add(1)
+		if t.panicV != nil {
+			panic(t.panicV)
+		}
+		return
+	}
 	b := t.sc.buf()
 	t.starts.Add(1)
 	b.Emit(ev{E: "task.start", T: t.id})
@@ -109,16 +127,18 @@ type scenario struct {
 	cancel context.CancelFunc
 	tasks  []*task
 	tmu    sync.Mutex
+	quiet  atomic.Bool // no per-step events (maximal real concurrency); only a summary is recorded
 	// gate: cancel inside the hook of event gateEv when it happens for the gateK-th time
-	gateEv    string
-	gateK     int32
-	gateCnt   atomic.Int32
-	yieldSeed int64
-	yield     atomic.Int64
-	barrier   *sync.WaitGroup
-	cancelled atomic.Bool
-	inPush    atomic.Int32
-	note      string
+	gateEv       string
+	gateK        int32
+	gateCnt      atomic.Int32
+	yieldSeed    int64
+	timeoutDwell time.Duration
+	yield        atomic.Int64
+	barrier      *sync.WaitGroup
+	cancelled    atomic.Bool
+	inPush       atomic.Int32
+	note         string
 }
 
 func goid() int64 {
@@ -148,7 +168,7 @@ var current atomic.Pointer[scenario]
 
 func hook(tl *tasklane.TaskLane, e string, lane int, tk tasklane.Task) {
 	s := current.Load()
-	if s == nil {
+	if s == nil || s.quiet.Load() {
 		return
 	}
 	if own := s.tlp.Load(); own != nil && own != tl {
@@ -161,6 +181,9 @@ func hook(tl *tasklane.TaskLane, e string, lane int, tk tasklane.Task) {
 	s.buf().Emit(ev{E: e, P: lane + 1, T: id})
 	if s.gateEv == e && s.gateCnt.Add(1) == s.gateK {
 		s.doCancel("hook " + e)
+	}
+	if e == "p.timeout" && s.timeoutDwell > 0 {
+		time.Sleep(s.timeoutDwell) // the timer has fired; by the time the producer continues the lane has room again
 	}
 	// seeded schedule perturbation at protocol points
 	if y := s.yield.Add(1); s.yieldSeed != 0 {
@@ -341,7 +364,7 @@ func (s *scenario) finish(cancelFirst bool) result {
 	return r
 }
 
-var panicVals = []any{"boom", errors.New("io"), 7, panicStruct{3}}
+var panicVals = []any{"boom", errors.New("io"), 7, panicStruct{3}, errList{"a", "b"}, []int{1, 2}, map[string]int{"k": 1}, errList{"c"}}
 
 func runRandom(rng *rand.Rand) result {
 	n, q := 1+rng.Intn(3), rng.Intn(3)
@@ -447,6 +470,133 @@ func runCancelAt(rng *rand.Rand, evName string, k int, n, q int) result {
 }
 
 func (s *scenario) mkTaskLocked() *task { return s.mkTask(0, false, nil) }
+
+// many lanes updating the pending counter at the same time, then the exact at-rest comparison
+func runBurst(rng *rand.Rand, n, q, per int) result {
+	s := newScenario("burst", n, q, context.Background(), nil)
+	s.tl.SetTimeout(2 * time.Second)
+	s.note = fmt.Sprintf("n=%d q=%d: %d producers x %d empty tasks, one lane each, all at once", n, q, n, per)
+	var wg sync.WaitGroup
+	start := make(chan struct{})
+	for p := 1; p <= n; p++ {
+		var mine []*task
+		for k := 0; k < per; k++ {
+			var pv any
+			if k%37 == 5 {
+				pv = panicVals[k%len(panicVals)]
+			}
+			mine = append(mine, s.mkTask(0, false, pv))
+		}
+		wg.Add(1)
+		go func(p int) {
+			defer wg.Done()
+			<-start
+			for _, t := range mine {
+				s.push(p, t, p-1)
+			}
+		}(p)
+	}
+	close(start)
+	wg.Wait()
+	s.quiesce("live")
+	s.status(90)
+	return s.finish(false)
+}
+
+// the same without any per-step event: nothing slows the goroutines down; only totals are recorded
+func runQuietBurst(rng *rand.Rand, n, q, per int) result {
+	s := newScenario("quietburst", n, q, context.Background(), func(s *scenario) { s.quiet.Store(true) })
+	s.tl.SetTimeout(2 * time.Second)
+	s.note = fmt.Sprintf("n=%d q=%d: %d producers x %d empty tasks without per-step events", n, q, n, per)
+	var wg sync.WaitGroup
+	var accepted atomic.Int64
+	start := make(chan struct{})
+	for p := 1; p <= n; p++ {
+		var mine []*task
+		for k := 0; k < per; k++ {
+			var pv any
+			if k%41 == 7 {
+				pv = panicVals[k%len(panicVals)]
+			}
+			mine = append(mine, s.mkTask(0, false, pv))
+		}
+		wg.Add(1)
+		go func(p int) {
+			defer wg.Done()
+			<-start
+			for _, t := range mine {
+				if s.tl.PushTask(t, p-1) == nil {
+					accepted.Add(1)
+				}
+			}
+		}(p)
+	}
+	close(start)
+	wg.Wait()
+	// stable state: nothing left to do
+	for i := 0; i < 400; i++ {
+		c1 := takeCensus()
+		st1 := s.tl.Status().PendingTask
+		time.Sleep(10 * time.Millisecond)
+		c2 := takeCensus()
+		if !c1.busy && !c2.busy && c1 == c2 && st1 == s.tl.Status().PendingTask {
+			break
+		}
+	}
+	started, twice := 0, 0
+	s.tmu.Lock()
+	for _, t := range s.tasks {
+		if n := t.starts.Load(); n > 0 {
+			started++
+			if n > 1 {
+				twice++
+			}
+		}
+	}
+	s.tmu.Unlock()
+	st := s.tl.Status()
+	s.quiet.Store(false)
+	raised := map[string]bool{}
+	s.tmu.Lock()
+	for _, t := range s.tasks {
+		if t.panicV != nil && t.starts.Load() > 0 {
+			raised[tagOf(t.panicV)] = true
+		}
+	}
+	s.tmu.Unlock()
+	for tag := range raised { // the panics that occurred (their per-task events were not recorded)
+		s.buf().Emit(ev{E: "task.panic", T: 0, V: tag})
+	}
+	s.buf().Emit(ev{E: "burst.summary", Pend: st.PendingTask, G: int(accepted.Load()), B: started, T: twice, V: tagOf(st.LastPanic)})
+	return s.finish(false)
+}
+
+// tiny push timeouts against a full lane that drains while the timed-out producer is still inside PushTask
+func runTimeouts(rng *rand.Rand, n, q int) result {
+	ys := rng.Int63n(1<<30) + 1
+	s := newScenario("timeouts", n, q, context.Background(), func(s *scenario) {
+		s.yieldSeed, s.timeoutDwell = ys, time.Duration(600+rng.Intn(900))*time.Microsecond
+	})
+	s.tl.SetTimeout(time.Duration(60+rng.Intn(100)) * time.Microsecond)
+	s.note = fmt.Sprintf("n=%d q=%d push timeout ~100us, tasks 300us, producer dwells ~1ms after the timer fired", n, q)
+	var wg sync.WaitGroup
+	for p := 1; p <= 3; p++ {
+		var mine []*task
+		for k := 0; k < 8; k++ {
+			mine = append(mine, s.mkTask(300*time.Microsecond, false, nil))
+		}
+		wg.Add(1)
+		go func(p int) {
+			defer wg.Done()
+			for _, t := range mine {
+				s.push(p, t, 0)
+			}
+		}(p)
+	}
+	wg.Wait()
+	s.quiesce("live")
+	return s.finish(false)
+}
 
 func runAtRest(rng *rand.Rand, n, q, pin int, oneLane bool) result {
 	s := newScenario("atrest", n, q, context.Background(), nil)
@@ -561,6 +711,9 @@ func main() {
 	gateK := flag.Int("gatek", 2, "occurrences per hook point for the cancellation enumeration")
 	natrest := flag.Int("atrest", 1, "repetitions of the systematic at-rest / all-busy families")
 	npanics := flag.Int("panics", 6, "")
+	ntimeouts := flag.Int("timeouts", 4, "")
+	nburst := flag.Int("burst", 4, "")
+	burstPer := flag.Int("burstper", 60, "tasks per producer in a burst scenario")
 	flag.Parse()
 	tasklane.VerifHook = hook
 	rng := rand.New(rand.NewSource(vio.Seed()))
@@ -597,5 +750,12 @@ func main() {
 	}
 	for i := 0; i < *npanics; i++ {
 		w.Put(runPanics(rng))
+	}
+	for i := 0; i < *nburst; i++ {
+		w.Put(runBurst(rng, 4, i%2, *burstPer))
+		w.Put(runQuietBurst(rng, 4, i%3, 40**burstPer))
+	}
+	for i := 0; i < *ntimeouts; i++ {
+		w.Put(runTimeouts(rng, 1+i%2, 1+i%2))
 	}
 }
